@@ -34,6 +34,8 @@ def _make(kind):
         return AttributeError("injected")
     if kind == "ke":
         return KeyError("injected")
+    if kind == "si":
+        return StopIteration("injected")
     if kind == "cancel":
         return asyncio.CancelledError("injected")
     raise ValueError(kind)
@@ -425,6 +427,10 @@ def check_scenario(drv, pristine, scen, acc, second=None):
     # (in the sequences of two faulted calls the first call is faulted with three kinds only: the other Exception subclasses
     #  take the very same paths through the library unless a handler names them, which the single-fault enumeration covers)
     kinds = KINDS if second is None else ["exc", "base", "te"]
+    if second is None and not CALLS[call][0]:
+        # StopIteration raised in user code of a SYNC call (e.g. next() on an exhausted iterator inside a condition) is an ordinary
+        # exception there; inside a coroutine CPython itself turns it into a RuntimeError, which is not the library's doing
+        kinds = kinds + ["si"]
     plans = [("cross", i, kind) for i in range(len(base_trace)) for kind in kinds]
     if CALLS[call][0]:
         plans += [("cross", i, "cancel") for i in range(len(base_trace))]
@@ -477,11 +483,11 @@ def check_scenario(drv, pristine, scen, acc, second=None):
             elif outcome[0] != "exc":
                 # an Exception raised by a value __repr__ may be absorbed by reprlib; the call must then end as without the fault
                 # (a normal return is only possible when the message was built for a precondition group that was later overruled)
-                if not (where.startswith("repr") and plan[2] in ("exc", "te", "ae", "ke") and summarize(outcome) == summarize(base_outcome)):
+                if not (where.startswith("repr") and plan[2] in ("exc", "te", "ae", "ke", "si") and summarize(outcome) == summarize(base_outcome)):
                     viol("fault_swallowed", "fault {} at {!r}: the call returned normally".format(plan[2], where))
                     continue
             elif not chain_has(outcome[1], injected):
-                absorbed_ok = where.startswith("repr") and plan[2] in ("exc", "te", "ae", "ke") and type(outcome[1]).__name__ in ("ViolationError", "Viol")
+                absorbed_ok = where.startswith("repr") and plan[2] in ("exc", "te", "ae", "ke", "si") and type(outcome[1]).__name__ in ("ViolationError", "Viol")
                 if not absorbed_ok:
                     viol("fault_replaced", "fault {} at {!r}: surfaced {!r} which neither is nor chains the injected exception".format(
                         plan[2], where, outcome[1]))
